@@ -85,6 +85,21 @@ pub fn check_positive(
         let size = if pc.term == Term::RawSized { Some(len) } else { None };
         match sut::raw_lzma_new(pc.props.lc, pc.props.lp, pc.props.pb, pc.dict, size, None) {
             Ok(mut dec) => {
+                // a third of the raw-decoder cases reuse an object that has already decoded another
+                // well-formed stream (a prefix of this program) and was reset: nothing of the earlier
+                // decode - window contents, lengths, sizes - may leak into this one
+                if (ctx.index ^ enc.payload.len() as u64) % 3 == 1 && pc.prog.len() >= 4 && enc.output.len() < (1 << 20) {
+                    let half = &pc.prog[..pc.prog.len() / 2];
+                    if let Ok((wp, _, wh)) = crate::refmodel::lzma::encode_program(half, pc.props) {
+                        let _ = sut::guarded(|| dec.reset(Some(Some(wh.len() as u64))));
+                        let w = sut::raw_lzma_decompress(&mut dec, &wp, ReaderKind::Slice, &SharedSink::counting_only(), &sut::new_obs(u64::MAX));
+                        if w.verdict.is_abnormal() {
+                            return Some(enc.output.len());
+                        }
+                        let _ = sut::guarded(|| dec.reset(Some(size)));
+                        cov.name("raw_decoder_object_reused_after_another_stream", 1);
+                    }
+                }
                 let c = sut::raw_lzma_decompress(&mut dec, &enc.payload, pc.reader, &sink, &obs);
                 (c.verdict, enc.payload.clone())
             }
